@@ -25,6 +25,7 @@ import (
 	"strconv"
 	"strings"
 	"testing"
+	"testing/synctest"
 	"time"
 
 	commoncfg "github.com/prometheus/common/config"
@@ -70,6 +71,8 @@ func parseAlerts(s string) []*types.Alert {
 			a.EndsAt = now.Add(-time.Hour)
 		case "f":
 			a.EndsAt = now.Add(time.Hour)
+		case "t": // ends at this very instant (only inside a synctest bubble, where the clock stands still): resolved, like everywhere else in the pipeline
+			a.EndsAt = now
 		case "P": // resolved by running into resolve_timeout: the API filled EndsAt in and flagged it
 			a.EndsAt = now.Add(-time.Hour)
 			a.Timeout = true
@@ -92,6 +95,7 @@ func dump(d *template.Data) string {
 }
 
 type world struct {
+	t      *testing.T
 	tmpl   *template.Template
 	srv    *httptest.Server
 	last   []byte
@@ -156,6 +160,12 @@ func (w *world) exec(line string) string {
 	t := strings.Fields(line)
 	switch t[0] {
 	case "data":
+		if len(t) > 4 && t[4] == "tie" {
+			// the same op under a standing clock, so that "ends now" is exact
+			var out string
+			synctest.Test(w.t, func(*testing.T) { out = w.exec(strings.Join(t[:4], " ")) })
+			return out
+		}
 		d := w.tmpl.Data(hx.Unhex(t[1]), model.LabelSet{"g": "1"}, nil, "first_notification", parseAlerts(t[3])...)
 		// an integration renders several templates on the same data (subject, then body, then URL …): rendering must
 		// not change what the next template sees
@@ -267,7 +277,7 @@ func genAlerts(r *rand.Rand) string {
 func TestEngine(t *testing.T) {
 	tr := hx.Open()
 	defer tr.Close()
-	w := &world{}
+	w := &world{t: t}
 	var err error
 	w.tmpl, err = template.FromGlobs(nil)
 	if err != nil {
@@ -304,6 +314,15 @@ func TestEngine(t *testing.T) {
 			}
 		} else if r.IntN(3) == 0 {
 			do(fmt.Sprintf("webhook %d %s %s", r.IntN(5), hx.Hex(hx.Pick(r, recvs)), as))
+		} else if r.IntN(4) == 0 {
+			// some alerts end at the very instant of the notification
+			toks := strings.Split(as, ";")
+			for i := range toks {
+				if r.IntN(2) == 0 && (strings.HasPrefix(toks[i], "p|") || strings.HasPrefix(toks[i], "f|") || strings.HasPrefix(toks[i], "z|")) {
+					toks[i] = "t" + toks[i][1:]
+				}
+			}
+			do(fmt.Sprintf("data %s 1 %s tie", hx.Hex(hx.Pick(r, recvs)), strings.Join(toks, ";")))
 		} else {
 			do(fmt.Sprintf("data %s 1 %s", hx.Hex(hx.Pick(r, recvs)), as))
 		}
